@@ -454,6 +454,8 @@ func (r *runner) stress(a hx.Args) string {
 	var mu sync.Mutex
 	var grants []grant
 	var late []int
+	waits := map[grant]bool{}  // announcements answered false: the node is recorded as an announcer
+	pgrants := map[int]bool{}  // txs handed out by a poll inside this op
 	dlv := map[int]bool{}
 	var wg sync.WaitGroup
 	start := make(chan struct{})
@@ -483,6 +485,10 @@ func (r *runner) stress(a hx.Args) string {
 							late = append(late, infos[ti].id)
 						}
 						mu.Unlock()
+					} else {
+						mu.Lock()
+						waits[grant{infos[ti].id, node}] = true
+						mu.Unlock()
 					}
 				case 1:
 					r.m.AddTx(r.ctx, nil, nodeID(node), infos[ti].tx)
@@ -501,6 +507,7 @@ func (r *runner) stress(a hx.Args) string {
 					for _, h := range hs {
 						id := idOf(h)
 						grants = append(grants, grant{id, node})
+						pgrants[id] = true
 						if id >= base && id < base+txs && was[id-base] == 1 {
 							late = append(late, id)
 						}
@@ -531,7 +538,26 @@ func (r *runner) stress(a hx.Args) string {
 		ds = append(ds, id)
 	}
 	sort.Ints(ds)
-	return "grants=" + hx.List(gs) + " late=" + hx.IntList(late) + " dlv=" + hx.IntList(ds)
+	var ws []grant
+	for w := range waits {
+		ws = append(ws, w)
+	}
+	sort.Slice(ws, func(i, j int) bool {
+		if ws[i].tx != ws[j].tx {
+			return ws[i].tx < ws[j].tx
+		}
+		return ws[i].node < ws[j].node
+	})
+	wl := make([]string, len(ws))
+	for i, x := range ws {
+		wl[i] = fmt.Sprintf("%d:%d", x.tx, x.node)
+	}
+	pg := []int{}
+	for id := range pgrants {
+		pg = append(pg, id)
+	}
+	sort.Ints(pg)
+	return "grants=" + hx.List(gs) + " late=" + hx.IntList(late) + " dlv=" + hx.IntList(ds) + " wait=" + hx.List(wl) + " pg=" + hx.IntList(pg)
 }
 
 // storm: g goroutines walk the SAME list of fresh txids in lock step (a spin barrier per txid), so that
@@ -976,6 +1002,13 @@ func genStress(r *hx.Rng, tier string, idx int) {
 		fmt.Printf("stress seed=%d g=%d n=%d txs=%d nodes=%d base=%d dp=%d\n", r.Intn(1<<30), 2+r.Intn(7), n, txs, nodes, base, dp)
 		if i+1 < rounds {
 			fmt.Println("adv")
+		}
+	}
+	if mode == "short" {
+		// follow-up: whoever announced and was answered false is owed the transaction after the time-out
+		for k := 1; k <= nodes; k++ {
+			fmt.Println("adv")
+			fmt.Printf("poll node=%d max=100000\n", k)
 		}
 	}
 	fmt.Println("drain")
